@@ -338,6 +338,11 @@ pub fn suite_c04(ctx: &mut Ctx) {
 }
 
 pub fn suite_c12(ctx: &mut Ctx) {
+    // metamorphic screening (selection only): neg, clear, round trip and image routes
+    for ty in FIXED {
+        let l2 = ctx.q(if ty.n == 8 { 19 } else { 22 }, if ty.n == 8 { 23 } else { 27 }) as u32;
+        screen_quire(ctx, ty, l2);
+    }
     for ty in FIXED {
         let lat = gen::lattice(ty.n, ty.es, &mut ctx.rng, 2);
         // round trip posit -> quire -> posit
@@ -513,8 +518,93 @@ fn meta_history(ty: &Ty, seed: u64, i: u64) -> (Vec<(u64, u64)>, (u64, u64), (u6
     (base, ab, cd)
 }
 
+/// (F) the image against a plain 512-bit two's-complement accumulation of the exact products (harness-side integers;
+/// a pointer like the other routes -- the verdict on a selected history is the specification's)
+fn model_image(ty: &Ty, terms: &[(u64, u64, bool)]) -> Option<Vec<u64>> {
+    let (n, es) = (ty.n, ty.es);
+    let (lsb, words): (i32, usize) = match n { 8 => (-12, 1), 16 => (-56, 2), _ => (-240, 8) };
+    let mut acc = [0u64; 8];
+    for &(a, b, sub) in terms {
+        if a == gen::nar(n) || b == gen::nar(n) {
+            return None;
+        }
+        if a == 0 || b == 0 {
+            continue;
+        }
+        let (sa, ea, nfa, fa) = gen::decode(n, es, a);
+        let (sb, eb, nfb, fb) = gen::decode(n, es, b);
+        let m = (((1u128 << nfa) | fa as u128) * ((1u128 << nfb) | fb as u128)) as u128;
+        let e = ea - nfa as i32 + eb - nfb as i32;
+        let sh = e - lsb;
+        if sh < 0 || sh > 500 {
+            return None;
+        }
+        // m << sh into 8 little-endian words
+        let mut t = [0u64; 8];
+        let (w, o) = ((sh / 64) as usize, (sh % 64) as u32);
+        let lo = m as u64;
+        let hi = (m >> 64) as u64;
+        let parts = [lo << o, if o == 0 { hi } else { (lo >> (64 - o)) | (hi << o) }, if o == 0 { 0 } else { hi >> (64 - o) }];
+        for (k, p) in parts.iter().enumerate() {
+            if w + k < 8 {
+                t[w + k] = *p;
+            } else if *p != 0 {
+                return None;
+            }
+        }
+        let negative = (sa != sb) != sub;
+        if negative {
+            // two's complement negate
+            let mut c = 1u64;
+            for x in t.iter_mut() {
+                let (v, o1) = (!*x).overflowing_add(c);
+                *x = v;
+                c = o1 as u64;
+            }
+        }
+        let mut c = 0u64;
+        for k in 0..8 {
+            let (v, o1) = acc[k].overflowing_add(t[k]);
+            let (v2, o2) = v.overflowing_add(c);
+            acc[k] = v2;
+            c = (o1 || o2) as u64;
+        }
+    }
+    // the narrower quires are the low `words` words, sign-extended
+    let mut out: Vec<u64> = acc[..words].to_vec();
+    if n == 8 {
+        out[0] &= 0xffff_ffff;
+    }
+    // magnitudes that do not fit the narrower quire: not comparable
+    if words < 8 {
+        let sign = if n == 8 { (out[0] >> 31) & 1 } else { out[words - 1] >> 63 };
+        let ext = if sign == 1 { u64::MAX } else { 0 };
+        if acc[words..].iter().any(|&w| w != ext) || (n == 8 && (acc[0] >> 32) != (ext >> 32)) {
+            return None;
+        }
+    }
+    Some(out)
+}
+
 fn meta_differs(ty: &Ty, base: &[(u64, u64)], ab: (u64, u64), cd: (u64, u64)) -> bool {
     let n = ty.n;
+    // (F)
+    {
+        let mut terms: Vec<(u64, u64, bool)> = base.iter().map(|&(a, b)| (a, b, false)).collect();
+        terms.push((ab.0, ab.1, false));
+        terms.push((cd.0, cd.1, true));
+        if let Some(want) = model_image(ty, &terms) {
+            let mut q = QAny::new(ty.name);
+            for &(a, b, sub) in &terms {
+                q.exec(if sub { "q_sub" } else { "q_add" }, "pp", &[a, b], &[], &[]);
+            }
+            let (bits, _, nar) = q.observe();
+            // (the all-ones-top pattern 1000...0 is the quire's NaR: a sum that lands there is not comparable)
+            if !nar && bits != want {
+                return true;
+            }
+        }
+    }
     let mk = || {
         let mut q = QAny::new(ty.name);
         for &(a, b) in base {
@@ -579,6 +669,36 @@ fn meta_differs(ty: &Ty, base: &[(u64, u64)], ab: (u64, u64), cd: (u64, u64)) ->
     if !i7.2 && !i8.2 && !negimg.2 && i7.0 != i8.0 {
         return true;
     }
+    // (G) the single-posit forms: q + a = q + (a, 1), q - a = q - (a, 1)
+    {
+        let one = 1u64 << (n - 2);
+        let mut qa = mk();
+        qa.exec("q_add", "p", &[ab.0], &[], &[]);
+        let mut qb = mk();
+        qb.exec("q_add", "pp", &[ab.0, one], &[], &[]);
+        let (ia, ib) = (img(&qa), img(&qb));
+        if !ia.2 && !ib.2 && ia.0 != ib.0 {
+            return true;
+        }
+        let mut qa = mk();
+        qa.exec("q_sub", "p", &[ab.1], &[], &[]);
+        let mut qb = mk();
+        qb.exec("q_sub", "pp", &[ab.1, one], &[], &[]);
+        let (ia, ib) = (img(&qa), img(&qb));
+        if !ia.2 && !ib.2 && ia.0 != ib.0 {
+            return true;
+        }
+    }
+    // (H) clear leaves nothing behind
+    {
+        let mut qc = mk();
+        qc.exec("q_add", "pp", &[ab.0, ab.1], &[], &[]);
+        qc.exec("q_clear", "m", &[], &[], &[]);
+        let ic = img(&qc);
+        if ic.0.iter().any(|&w| w != 0) || !ic.1 {
+            return true;
+        }
+    }
     // (E)
     if z0 != b0.iter().all(|&w| w == 0) {
         return true;
@@ -615,6 +735,7 @@ pub fn screen_quire(ctx: &mut Ctx, ty: &'static Ty, log2count: u32) {
         };
         let negs = |x: (u64, u64)| (gen::neg(ty.n, x.0), x.1);
         let hs: Vec<Vec<Step>> = vec![
+            with(vec![st("q_add", ab), st("q_sub", cd)]),
             with(vec![st("q_add", ab), st("q_sub", ab)]),
             with(vec![st("q_add", ab), st("q_add", cd)]),
             with(vec![st("q_add", cd), st("q_add", ab)]),
@@ -625,6 +746,10 @@ pub fn screen_quire(ctx: &mut Ctx, ty: &'static Ty, log2count: u32) {
             with(vec![st("q_add", ab), Step { op: "q_neg", sp: "m", x: vec![], bs: vec![] }]),
             with(vec![Step { op: "q_neg", sp: "m", x: vec![], bs: vec![] }, st("q_sub", ab)]),
             vec![Step { op: "q_from_posit", sp: "m", x: vec![ab.0], bs: vec![] }],
+            with(vec![Step { op: "q_add", sp: "p", x: vec![ab.0], bs: vec![] }]),
+            with(vec![Step { op: "q_add", sp: "pp", x: vec![ab.0, 1u64 << (ty.n - 2)], bs: vec![] }]),
+            with(vec![Step { op: "q_sub", sp: "p", x: vec![ab.1], bs: vec![] }]),
+            with(vec![st("q_add", ab), Step { op: "q_clear", sp: "m", x: vec![], bs: vec![] }]),
             b,
         ];
         for h in hs {
